@@ -360,7 +360,8 @@ def oracleQSmall (pw xsw outw : List String) : Option Verdict := do
           [a, b, (a + b) / 2]
     base ++ extra.flatten
   -- the average 0.5*a + 0.5*b is rounded: allow 2 ulp of max(|a|,|b|)
-  let tol (c : Rat) : Rat := ratAbs c * mkRat 1 (2 ^ 51)
+  -- (in the subnormal range the spacing is absolute: one unit 2^-1074)
+  let tol (c : Rat) : Rat := max (ratAbs c * mkRat 1 (2 ^ 51)) (mkRat 1 (2 ^ 1074))
   if cands.any fun c => ratAbs (outr - c) ≤ tol c then pure .ok
   else pure (.fail s!"qsmall: got {fmtF out}, exact {fmtF (ratToFloat (exactQuantile pr sorted))}")
 
